@@ -1,4 +1,5 @@
 import SJ.Proofs.LexRound
+import SJ.Proofs.LexSplit
 /-!
 # C07 layer (iv): bhcomp — the big-integer slow path returns the correctly rounded value
 
@@ -8,6 +9,7 @@ digits and one sticky digit), `bhcomp`.
 -/
 namespace SJ.Proofs.LexBh
 open SJ SJ.Gen SJ.Model.Lexical SJ.Spec.Ieee32 SJ.Proofs.LexIeee SJ.Proofs.LexRound
+open SJ.Model.Num SJ.Proofs.NumInt SJ.Proofs.LexSplit
 
 /-! ## an integer rounded at a high position: the sticky rule -/
 
@@ -505,5 +507,99 @@ theorem smallAtof_eq {c : FC} {F : Fmt} (h : FCok c F) (N : Nat) (s : Int) (b : 
       · have : k + t = F.qexp + 1 := by omega
         rw [this, Nat.pow_succ]; ring
       · rw [h10, Nat.pow_add]; ring
+
+/-! ## `parse_mantissa`: up to `MAX_DIGITS - 1` digits and one sticky digit -/
+
+theorem pow10_64_get (i : Nat) (hi : i < 20) : pow10_64.getD i 0 = 10 ^ i :=
+  SJ.Proofs.LexTables.pow10_64_correct i (List.mem_range.2 hi)
+
+/-- the loop: `result·10^counter + value` accumulates the digits, at most `maxDigits - i` of them -/
+theorem parseMantissaLoop_spec (maxDigits : Nat) (ds : Bytes) (counter value i result : Nat)
+    (hc : counter ≤ 18) (hi : i < maxDigits) (hcv : counter = 0 → value = 0) :
+    let r := parseMantissaLoop maxDigits 18 ds counter value i result
+    r.2.2.2 * 10 ^ r.1 + r.2.1 =
+        (result * 10 ^ counter + value) * 10 ^ (min ds.length (maxDigits - i)) + natOfDigits (ds.take (maxDigits - i)) ∧
+      r.2.2.1 = i + min ds.length (maxDigits - i) ∧ r.1 ≤ 18 ∧ (r.1 = 0 → r.2.1 = 0) := by
+  induction ds generalizing counter value i result with
+  | nil => simp [parseMantissaLoop, natOfDigits_nil, hc]; exact hcv
+  | cons d ds ih =>
+    simp only [parseMantissaLoop]
+    have hm : maxDigits - i = (maxDigits - (i + 1)) + 1 := by omega
+    by_cases h18 : counter = 18
+    · -- flush the limb
+      subst h18
+      simp only [beq_self_eq_true, if_true]
+      rw [pow10_64_get 18 (by decide)]
+      by_cases hlast : i + 1 = maxDigits
+      · have hbeq : (i + 1 == maxDigits) = true := by simpa using hlast
+        simp only [hbeq, if_true]
+        have h1 : maxDigits - i = 1 := by omega
+        rw [h1]
+        simp [natOfDigits]
+      · have hbeq : (i + 1 == maxDigits) = false := by simpa using hlast
+        simp only [hbeq, Bool.false_eq_true, if_false]
+        obtain ⟨e1, e2, e3, e4⟩ := ih (0 + 1) (0 * 10 + dig d) (i + 1) (result * 10 ^ 18 + value) (by omega) (by omega) (by omega)
+        refine ⟨?_, ?_, e3, e4⟩
+        · rw [e1, hm, List.take_succ_cons]
+          have hmin : min (d :: ds).length (maxDigits - (i + 1) + 1) = min ds.length (maxDigits - (i + 1)) + 1 := by
+            simp only [List.length_cons]; omega
+          rw [hmin]
+          have hv : natOfDigits (d :: List.take (maxDigits - (i + 1)) ds) =
+              dig d * 10 ^ (min ds.length (maxDigits - (i + 1))) + natOfDigits (List.take (maxDigits - (i + 1)) ds) := by
+            rw [natOfDigits_eq_val, val_cons, val_eq, List.length_take]; simp [Nat.min_comm]
+          rw [hv, Nat.pow_succ]; ring
+        · rw [e2]; simp only [List.length_cons]; omega
+    · have hbeq18 : (counter == 18) = false := by simpa using h18
+      simp only [hbeq18, Bool.false_eq_true, if_false]
+      by_cases hlast : i + 1 = maxDigits
+      · have hbeq : (i + 1 == maxDigits) = true := by simpa using hlast
+        simp only [hbeq, if_true]
+        have h1 : maxDigits - i = 1 := by omega
+        rw [h1]
+        simp [natOfDigits, Nat.pow_succ]
+        constructor
+        · ring
+        · omega
+      · have hbeq : (i + 1 == maxDigits) = false := by simpa using hlast
+        simp only [hbeq, Bool.false_eq_true, if_false]
+        obtain ⟨e1, e2, e3, e4⟩ := ih (counter + 1) (value * 10 + dig d) (i + 1) result (by omega) (by omega) (by omega)
+        refine ⟨?_, ?_, e3, e4⟩
+        · rw [e1, hm, List.take_succ_cons]
+          have hmin : min (d :: ds).length (maxDigits - (i + 1) + 1) = min ds.length (maxDigits - (i + 1)) + 1 := by
+            simp only [List.length_cons]; omega
+          rw [hmin]
+          have hv : natOfDigits (d :: List.take (maxDigits - (i + 1)) ds) =
+              dig d * 10 ^ (min ds.length (maxDigits - (i + 1))) + natOfDigits (List.take (maxDigits - (i + 1)) ds) := by
+            rw [natOfDigits_eq_val, val_cons, val_eq, List.length_take]; simp [Nat.min_comm]
+          rw [hv, Nat.pow_succ, Nat.pow_succ]; ring
+        · rw [e2]; simp only [List.length_cons]; omega
+
+theorem parseMantissa_eq (c : FC) (hmax : 2 ≤ c.maxDigits) (integer fraction : Bytes) :
+    parseMantissa c integer fraction =
+      if c.maxDigits - 1 < (integer ++ fraction).length then
+        natOfDigits ((integer ++ fraction).take (c.maxDigits - 1)) * 10 + 1
+      else natOfDigits (integer ++ fraction) := by
+  have hlen : pow10_64.length - 2 = 18 := by rw [SJ.Proofs.LexTables.lengths.2.2.2.2.2.2.2.1]
+  unfold parseMantissa
+  rw [hlen]
+  simp only []
+  obtain ⟨e1, e2, e3, e4⟩ := parseMantissaLoop_spec (c.maxDigits - 1) (integer ++ fraction) 0 0 0 0 (by omega) (by omega) (fun _ => rfl)
+  generalize parseMantissaLoop (c.maxDigits - 1) 18 (integer ++ fraction) 0 0 0 0 = r at *
+  obtain ⟨counter, value, i, result⟩ := r
+  simp only [] at e1 e2 e3 e4 ⊢
+  simp only [Nat.zero_mul, Nat.zero_add, Nat.sub_zero, Nat.add_zero] at e1 e2
+  have hres : (if (counter != 0) = true then result * pow10_64.getD counter 0 + value else result) =
+      natOfDigits ((integer ++ fraction).take (c.maxDigits - 1)) := by
+    by_cases hc0 : counter = 0
+    · have hv := e4 hc0
+      subst hc0
+      simp only [bne_self_eq_false, Bool.false_eq_true, if_false]
+      rw [← e1, hv]; simp
+    · have : (counter != 0) = true := by simpa using hc0
+      rw [if_pos this, pow10_64_get counter (by omega), e1]
+  rw [hres, e2, ← List.length_append]
+  by_cases hlt : c.maxDigits - 1 < (integer ++ fraction).length
+  · rw [if_pos hlt, if_pos (by omega)]
+  · rw [if_neg hlt, if_neg (by omega), List.take_of_length_le (by omega)]
 
 end SJ.Proofs.LexBh
